@@ -392,6 +392,9 @@ def configs(
                  else bool(unknown) and draw(st.booleans())),
         rig=draw(st.sampled_from(rigs)),
     )
+    if mode == 'C' and nboards >= 1 and (
+            game in BOARD_GAMES or (cdesc and cdesc['board'] > 0)):
+        cfg['force_runouts'] = draw(st.sampled_from([None, None, 2, 2, 3]))
     return cfg
 
 
